@@ -58,6 +58,7 @@ type muxState struct {
 	send        func(d *muxDelivery, opid string, frame []byte) // hand a response frame to the wire now
 	send503     func(d *muxDelivery, subjectSuffix string)
 	hangup      func()
+	flooded     bool
 	cbDelay     time.Duration // time the application's own per-call header callback takes (HTTP)
 	byDseq      map[string]*muxDelivery
 	pending503  map[string][]*muxDelivery
@@ -178,6 +179,18 @@ func muxHarness(rc *RunCtx) {
 				return nil, true
 			}
 			return nil, false
+		}
+		st.WriteDelay = func(p []byte) time.Duration {
+			f, err := DecodeFrame(p)
+			if err != nil {
+				return 0
+			}
+			if c := m.byTag[f.Headers["tag"]]; c != nil && c.sendFault == "write-slow" {
+				// the write goes through, but only after most of the call's timeout
+				rc.Fault("write-slow-but-completes")
+				return c.timeout * 7 / 10
+			}
+			return 0
 		}
 		st.FlushFault = func(i int) (error, bool) {
 			c := lastWritten
@@ -302,6 +315,10 @@ func muxHarness(rc *RunCtx) {
 		} else {
 			res, err := tr.Request(ctx, payload)
 			c.err = err
+			if tp.Intn("lateread", 4) == 3 {
+				// the caller is descheduled between getting its result and looking into it
+				simrt.Yield(simrt.HarnessSite("mux.before-reading-the-response"))
+			}
 			if err == nil && res != nil {
 				c.resp, _ = io.ReadAll(res)
 			}
@@ -371,6 +388,9 @@ func muxHarness(rc *RunCtx) {
 				}
 				if kind == "adapter" && tp.Pick("cfg", 100, nil) < m.prof.sendFaultPct {
 					c.sendFault = []string{"write-err", "write-block", "flush-err", "flush-block"}[tp.Intn("cfg", 4)]
+					if tp.Intn("wslow", 3) == 2 {
+						c.sendFault = "write-slow"
+					}
 					// flush faults need to know which call is being flushed; with
 					// concurrent senders that is ambiguous, so only the write
 					// variants are used when there is more than one caller
@@ -545,6 +565,11 @@ func (m *muxState) onRequest(frame []byte) {
 		c.plan = "503"
 		m.rc.Fault("status-503-for-own-request")
 		status503("503", c.opid, c, jitter())
+		for i, n := 0, []int{0, 0, 1, 2}[tp.Intn("dup503", 4)]; i < n; i++ {
+			// the same "no responders" status again (a second server of a cluster, a retry of the notice)
+			m.rc.Fault("status-503-duplicated")
+			status503("503", c.opid, c, jitter())
+		}
 	case 7:
 		c.plan = "once+503-on-garbage-subject"
 		m.rc.Fault("status-503-on-garbage-subject")
@@ -587,6 +612,15 @@ func (m *muxState) onRequest(frame []byte) {
 	case 4:
 		c.plan = "once+unknown-opid"
 		m.rc.Fault("unknown-opid-frame")
+		if !m.flooded && tp.Intn("flood", 12) == 11 {
+			// a peer that keeps sending frames nobody waits for: whatever the transport does with a frame it
+			// discards, it has to do it for as many as arrive
+			m.flooded = true
+			m.rc.Fault("flood-of-frames-for-unknown-op-ids")
+			for i, n := 0, 140+tp.Intn("flood", 200); i < n; i++ {
+				respond("unknown", strconv.Itoa(2000000+i), "nobody", 0, nil)
+			}
+		}
 		unknown := strconv.Itoa(1000000 + c.id)
 		if v := tp.Intn("opidform", 8); m.kind == "nats" && v >= 3 {
 			// op ids nobody issued that a sloppy parser maps onto THIS call's id (message-oriented transport:
@@ -717,6 +751,10 @@ func (m *muxState) check(tr frugal.FTransport, canary *muxCall, finished bool, b
 		default:
 			if c.sendFault == "" {
 				rc.Violate("C01", "unexpected-error", m.kind, fmt.Sprintf("call %d: %v", c.id, c.err))
+			}
+			if c.sendFault == "" && !inTime && el >= c.timeout && !stalled {
+				// nothing arrived in time and the call ended at its deadline: that is a timeout, whatever layer noticed
+				rc.Violate("C13", "timeout-not-reported-as-timed-out", m.kind, fmt.Sprintf("call %d (plan %s) ended at its deadline (%v) without a response, with error %v instead of TIMED_OUT", c.id, c.plan, el, c.err))
 			}
 		}
 		if c.err != nil && !isTimedOut(c.err) && c.sendFault == "" && c.oneway == false && c != canary {
